@@ -20,7 +20,7 @@ RULE = ("cases: a curve/surface/volume (rational or not, 2-D or 3-D) or a contai
 ASSUMPTIONS = ["nvmon.ref exact reference model for the input points; cos/sin of the angle from the math module (tolerance 1e-9*scale)"]
 FLOORS = {'quick': {'mapped-point': 3000, 'weights-unchanged': 150, 'inplace-semantics': 300, 'aggregate': 100},
           'thorough': {'mapped-point': 30000}}
-MANDATORY_TAGS = ['container:shape-listed-twice', 'translate', 'rotate', 'scale', 'container', 'single', 'inplace', 'copy', 'rational', 'axis0', 'axis1', 'axis2',
+MANDATORY_TAGS = ['container:shape-listed-twice', 'unclamped', 'coarse-precision', 'translate', 'rotate', 'scale', 'container', 'single', 'inplace', 'copy', 'rational', 'axis0', 'axis1', 'axis2',
                   'dim2', 'pdim3', 'read-before-inplace', 'null-map', 'partially-iterated']
 TECHNIQUE = ("runtime monitoring: exact reference points of the input mapped by the exact affine map vs library evaluation of the "
              "result, plus object-identity / input-digest checks, under a seeded workload incl. containers")
@@ -34,7 +34,14 @@ def gen(rng, tier, shard, nshards):
         pdim = rng.choice([1, 1, 2, 2, 3])
         dim = 3 if pdim == 3 else rng.choice([2, 3, 3])
         nel = rng.choice([0, 0, 1, 2, 3])  # 0 = plain shape, else container with nel elements
-        shapes = [G.rand_shape(rng, pdim, dim=dim, clamped_only=True, maxextra=3, maxdeg=3) for _ in range(max(1, nel))]
+        uncl = rng.random() < 0.25      # unclamped shapes: the start point is not the first control point
+        shapes = [G.rand_shape(rng, pdim, dim=dim, clamped_only=not uncl, maxextra=3, maxdeg=3,
+                               **(dict(kvcls=rng.choice(['unclamped', 'unclamped_rep'])) if uncl else {})) for _ in range(max(1, nel))]
+        if rng.random() < 0.2:
+            # shapes created with a coarse precision= (knot vectors kept as given, so that only the transformation is at stake)
+            for sd_ in shapes:
+                sd_['precision'] = rng.choice([3, 6])
+                sd_['normalize_kv'] = False
         yield {'kind': 'transform', 'shapes': shapes, 'container': nel > 0, 'op': rng.choice(['translate', 'rotate', 'scale']),
                'inplace': rng.random() < 0.5, 'seed': rng.randrange(1 << 30)}
 
@@ -50,6 +57,10 @@ def check(case, ctx):
             'dim%d' % dim, 'pdim%d' % pdim)
     if any(sd['rational'] for sd in sds):
         ctx.tag('rational')
+    if any(sd['kvs'][0][0] != sd['kvs'][0][sd['degrees'][0]] for sd in sds):
+        ctx.tag('unclamped')
+    if any(sd.get('precision') for sd in sds):
+        ctx.tag('coarse-precision')
     if case['container']:
         cls = {1: multi.CurveContainer, 2: multi.SurfaceContainer, 3: multi.VolumeContainer}[pdim]
         if case['seed'] % 6 == 0:
